@@ -264,7 +264,8 @@ def main(tier, seed, only=None):
     )
     run.assumptions = ["implementation under test = encoding + cspuz z3 backend", "empty inactive set counts as connected (as in C04)"]
     shards = gcheck.split_shards(cases, lambda c: 60 if c.get('family') == 'chains' else len(independent_sets(*c['shape'])) if c.get('family') else 1 << (c['n'] if 'n' in c else c['shape'][0] * c['shape'][1]), 400)
-    par.run_shards(run, worker, shards, seed)
+    first, rest = gcheck.heavy_first(shards, _CASES)
+    par.run_shards(run, worker, rest, seed, first=first)
     cov = {
         "evaluations": run.c("evaluations"),
         "distinct_nontrivial": sum(1 << g[0] for g in run.total.sets.get("graphs", ())),
